@@ -886,11 +886,23 @@ impl Check for C08 {
                 // Receive Maximum 1, Server Keep Alive), none of which the next CONNACK repeats:
                 // what arrives on the next connection is judged by that connection's CONNACK alone
                 let limits_before = !pre && rng.chance(1, 4);
+                let mut lower_window = false;
                 if limits_before {
                     let mut props = vec![Prop::MaximumPacketSize(*rng.pick(&[1u32, 2, 3, 4, 8, 20])), Prop::MaximumQoS(*rng.pick(&[0u8, 1])), Prop::ReceiveMaximum(1), Prop::ServerKeepAlive(*rng.pick(&[0u16, 1, 600]))];
                     rng.shuffle(&mut props);
                     props.truncate(1 + rng.below(4));
                     steps.push(Step::Connect(ConnectSpec { policy: IoPolicy::default(), faults: vec![], connack: ConnackSpec::Normal { sp: SpMode::Force(false), reason: 0, props }, broker: BrokerPolicy { acks: AckMode::Never, ping: AckMode::Immediate, fail_pct: 0, longform_pct: 0 }, cancel_at: None }));
+                    // (half of the time that connection was generous instead and leaves a few
+                    // publishes in flight, more than the next CONNACK's Receive Maximum)
+                    if rng.chance(1, 2) {
+                        if let Some(Step::Connect(c)) = steps.last_mut() {
+                            c.connack = ConnackSpec::Normal { sp: SpMode::Force(false), reason: 0, props: vec![] };
+                        }
+                        for k in 0..2 + rng.below(4) {
+                            steps.push(crate::checks::pubq(1 + rng.below(2) as u8, "inflight", k as u32, 2));
+                        }
+                        lower_window = true;
+                    }
                     steps.push(if rng.chance(1, 4) { Step::ForgetConn } else { Step::DropConn });
                     out.count("reconnects_after_a_connection_with_restrictive_limits", 1);
                 } else if pre {
@@ -912,7 +924,8 @@ impl Check for C08 {
                     rc::encode_server(&rand_valid(&mut rng, true))
                 };
                 let second_at = steps.len();
-                steps.push(Step::Connect(ConnectSpec { policy: IoPolicy { read: chunk, ..IoPolicy::default() }, faults: vec![], connack: ConnackSpec::ok(SpMode::Honest), broker: BrokerPolicy { acks: AckMode::Never, ping: AckMode::Never, fail_pct: 0, longform_pct: 0 }, cancel_at: None }));
+                let second_connack = if lower_window { ConnackSpec::Normal { sp: SpMode::Honest, reason: 0, props: vec![Prop::ReceiveMaximum(1)] } } else { ConnackSpec::ok(SpMode::Honest) };
+                steps.push(Step::Connect(ConnectSpec { policy: IoPolicy { read: chunk, ..IoPolicy::default() }, faults: vec![], connack: second_connack, broker: BrokerPolicy { acks: AckMode::Never, ping: AckMode::Never, fail_pct: 0, longform_pct: 0 }, cancel_at: None }));
                 steps.push(Step::Broker(BrokerAct::SendRaw(next.clone())));
                 for _ in 0..3 {
                     steps.push(poll0());
